@@ -348,7 +348,7 @@ func runC20(hn string, steps []c20Step, at int, fault string) (issues []string, 
 			if fault == "stop" {
 				w.Serv.Stop(nil)
 			} else {
-				w.MQ.ClosedHandler()(cause)
+				w.MQ.Lose()(cause)
 			}
 		}()
 		if second {
@@ -357,7 +357,7 @@ func runC20(hn string, steps []c20Step, at int, fault string) (issues []string, 
 			go func() {
 				defer close(sd)
 				if fault == "stop" {
-					if h := w.MQ.ClosedHandler(); h != nil {
+					if h := w.MQ.Lose(); h != nil {
 						h(cause)
 					}
 				} else {
